@@ -359,6 +359,28 @@ func (x *Exec) builtin(st *State, fr *Frame, b *ssa.Builtin, cc *ssa.CallCommon,
 			if x.lenOf(st, args[0], t) == "0" {
 				return TV{SInt, "0"}
 			}
+			// copy(obj.arr[lo:hi], src): the destination is an array inside a heap object
+			if sl, isSl := cc.Args[0].(*ssa.Slice); isSl {
+				if ap, isPtr := fr.vals[sl.X].(PtrV); isPtr && !ap.Nil {
+					if at, isArr := sl.X.Type().Underlying().(*types.Pointer).Elem().Underlying().(*types.Array); isArr {
+						lo := "0"
+						if sl.Low != nil {
+							lo = x.tv(st, fr, sl.Low).E
+						}
+						hi := num(at.Len())
+						if sl.High != nil {
+							hi = x.tv(st, fr, sl.High).E
+						}
+						cur := x.toTV(st, x.load(st, ap), at)
+						dl := tSub(hi, lo)
+						slen := sLen(sort, src)
+						n := tIte(tCmp("<", dl, slen), dl, slen)
+						nv := sApp(sort, sApp(sort, sSl(sort, cur.E, "0", lo), sSl(sort, src, "0", n)), sSl(sort, cur.E, tAdd(lo, n), num(at.Len())))
+						x.store(st, ap, TV{sort, nv})
+						return TV{SInt, n}
+					}
+				}
+			}
 			st.kill("copy into a slice without local owner")
 			return TV{SInt, "0"}
 		}
